@@ -21,6 +21,8 @@
 (*   <<"httpError", code, n>>     http.Error(c.Resp, n-1 byte msg, code)   *)
 (*   <<"err">>                    c.AddError(e)                            *)
 (*   <<"panic">>                  panic(v)                                 *)
+(*   <<"catchnext">>              handlers.PanicsHandler(): c.Next() under *)
+(*                                a deferred recover that sets status 500  *)
 (*                                                                         *)
 (* IDEAL machine (declarative, a recursive function): what the statements  *)
 (* promise - onion order, each handler at most once, nothing new after an  *)
@@ -95,6 +97,10 @@ IRunHandler(chain, st, h, pc) ==
        CASE op[1] = "in"    -> IRunHandler(chain, [st EXCEPT !.log = Append(@, <<"in", h, st.ab>>)], h, pc + 1)
          [] op[1] = "out"   -> IRunHandler(chain, [st EXCEPT !.log = Append(@, <<"out", h, st.ab>>)], h, pc + 1)
          [] op[1] = "next"  -> IRunHandler(chain, IRunNext(chain, st), h, pc + 1)
+         [] op[1] = "catchnext" ->      \* a panic below is recovered here: status 500, this handler goes on; the handlers
+                                        \* after the panicking one are still started by the enclosing loop
+              LET r == IRunNext(chain, st) IN
+              IRunHandler(chain, IF r.pan THEN [r EXCEPT !.pan = FALSE, !.w = WHeader(@, 500), !.wops = Append(@, <<"status", 500>>)] ELSE r, h, pc + 1)
          [] op[1] = "abort" -> IRunHandler(chain, [st EXCEPT !.ab = TRUE], h, pc + 1)
          [] op[1] = "abortStatus" -> IRunHandler(chain, [st EXCEPT !.ab = TRUE, !.w = ApplyW(@, op), !.wops = Append(@, op)], h, pc + 1)
          [] op[1] = "err"   -> IRunHandler(chain, [st EXCEPT !.errs = @ + 1], h, pc + 1)
